@@ -126,7 +126,8 @@ NIX_CANARY(NDSize_isub_scalar) __CPROVER_assigns(self->rank > 0: __CPROVER_objec
 /* ---- value semantics helpers (definitional adapters, not contracts) ---------------------------- */
 /* address of a temporary: C++ binds 'const NDSize&' to a temporary; C needs an object */
 static inline NDSize *TMP_NDSize(NDSize v) { NDSize *p = malloc(sizeof(NDSize)); __CPROVER_assume(p != NULL); *p = v; return p; }
-static inline NDSize NDSize_default(void) { NDSize r; r.rank = 0; r.dims = NULL; return r; }
+static inline NDSize NDSize_default(void)
+{ NDSize r; r.rank = 0; r.dims = NULL; return r; }   /* NDSizeBase(): rank(0), dims(nullptr) */
 
 /* NDSizeBase(const NDSizeBase &other): copy constructor (extracted unit NDSize_copy_ctor) as a value */
 void NDSize_copy_ctor(NDSize *self, const NDSize *other)
@@ -162,6 +163,16 @@ __CPROVER_ensures(/*new-storage*/ nix_exc == EXC_NONE ==> (RV.rank == a->rank &&
 __CPROVER_ensures(/*elementwise-sum*/ nix_exc == EXC_NONE ==> ND_FORALL(i8, a->rank, RV.dims[i8] == a->dims[i8] + b->dims[i8]))
 NIX_CANARY(NDSize_plus_cc) __CPROVER_assigns(nix_exc)
 ;
+/* NDSize(size_t rank, T fill_value): constructor units NDSize_ctor_fill / NDSize_fill, as a value */
+void NDSize_fill(NDSize *self, ndsize_t value)
+;
+void NDSize_ctor_fill(NDSize *self, size_t rank, ndsize_t fill_value)
+;
+static inline void fill_n(ndsize_t *dst, size_t n, ndsize_t v) { for (size_t i_ = 0; i_ < n; i_++) dst[i_] = v; }
+static inline NDSize mk_NDSize_2(size_t rank, ndsize_t fill)
+{ NDSize r; NDSize_ctor_fill(&r, rank, fill); return r; }
+
+
 /* free operator-(NDSizeBase<T> lhs, const NDSizeBase<T> &rhs): same scheme as operator+ */
 NIX_THROWS NDSize NDSize_minus(NDSize lhs, const NDSize *rhs)
 ;
